@@ -276,3 +276,14 @@ func res(r *ssa.Return) []ssa.Value {
 	}
 	return out
 }
+
+// cn: the name the rules know a function under (its own, or the reference name when it was recognised as a rename).
+func cn(f *ssa.Function) string {
+	if f == nil {
+		return ""
+	}
+	if core.Active != nil {
+		return core.Active.CanonName(f)
+	}
+	return f.Name()
+}
